@@ -43,6 +43,20 @@ func (db *DB) ListenerAdd(Name, Protocol, Config string) error {
 	return nil
 }
 
+func (db *DB) ListenerUpdate(Name, Config string) error {
+	/* prepare some arguments to execute for the sqlite db */
+	stmt, err := db.db.Prepare("UPDATE TS_Listeners SET Config = ? WHERE Name = ?")
+	if err != nil {
+		return err
+	}
+
+	/* update the config of the listener */
+	_, err = stmt.Exec(Config, Name)
+	stmt.Close()
+
+	return err
+}
+
 func (db *DB) ListenerExist(Name string) bool {
 	query, err := db.db.Query("SELECT Name FROM TS_Listeners")
 	if err != nil {
